@@ -549,3 +549,45 @@ func MixedNumericData() bq.Data {
 			MustTriple(a, pt, triple.NewNodeObject(a)), MustTriple(b, p, l(11)), MustTriple(b, p, l(0))},
 	}
 }
+
+// NullReuseStatements lists statements in which a binding introduced by an
+// OPTIONAL clause (NULL for the rows without a match) is used again in every
+// kind of place: subject, predicate, object, anchor, bound limit, HAVING,
+// ORDER BY, GROUP BY, aggregates, templates.
+func NullReuseStatements() []string {
+	opt := []string{
+		`?s "p"@[] ?o . OPTIONAL { ?s "q"@[?t] ?x }`,
+		`?s "p"@[] ?o . OPTIONAL { ?o "q"@[] ?x }`,
+		`?s ?p ?o . OPTIONAL { ?s "p"@[?t] ?x AT ?a }`,
+		`?s "n"@[] ?o . OPTIONAL { ?s "q"@[] ?x } . OPTIONAL { ?x "p"@[?t] ?y }`,
+	}
+	later := []string{
+		`?s "p"@[?t] ?y`, `?x "p"@[] ?y`, `?y ?x ?z`, `?y "p"@[] ?x`, `?s "q"@[?t,] ?y`, `?s "q"@[,?t] ?y`, `?s "q"@[?t,?t] ?y`, `?y "q"@[] "p"@[?t]`,
+		`?x ?p2 ?y AT ?t`, `?x ID ?i "p"@[] ?y`, `?y "p"@[] ?x TYPE ?ty`, `OPTIONAL { ?x "q"@[?t] ?y }`, `?a "p"@[] ?y`, `?s "p"@[?a] ?y`,
+	}
+	var res []string
+	for _, o := range opt {
+		for _, l := range later {
+			res = append(res, fmt.Sprintf("SELECT ?s, ?y FROM ?g1, ?gn, ?gm WHERE { %s . %s };", o, l))
+		}
+		res = append(res,
+			fmt.Sprintf("SELECT ?s, ?x FROM ?g1, ?gn WHERE { %s } ORDER BY ?x DESC, ?s;", o),
+			fmt.Sprintf("SELECT ?x, count(?s) AS ?n FROM ?g1, ?gn WHERE { %s } GROUP BY ?x;", o),
+			fmt.Sprintf("SELECT ?s, sum(?x) AS ?n FROM ?gn, ?gm WHERE { %s } GROUP BY ?s;", o),
+			fmt.Sprintf("SELECT ?s, count(distinct ?x) AS ?n FROM ?g1, ?gn WHERE { %s } GROUP BY ?s HAVING ?n > \"0\"^^type:int64;", o),
+			fmt.Sprintf("SELECT ?s, ?x FROM ?g1, ?gn WHERE { %s } HAVING ?x = /u<a>;", o),
+			fmt.Sprintf("SELECT ?s, ?x FROM ?g1, ?gn WHERE { %s } HAVING (?x < \"5\"^^type:int64) OR NOT ?x = ?s;", o),
+			fmt.Sprintf("CONSTRUCT { ?s \"c1\"@[] ?x } INTO ?g2 FROM ?g1, ?gn WHERE { %s };", o),
+			fmt.Sprintf("CONSTRUCT { ?x \"c1\"@[] ?s ; \"c2\"@[] ?x } INTO ?g2 FROM ?g1, ?gn WHERE { %s };", o),
+			fmt.Sprintf("DECONSTRUCT { ?s \"p\"@[] ?x } IN ?g2 FROM ?g1, ?gn WHERE { %s };", o),
+		)
+		if strings.Contains(o, "?t") {
+			res = append(res,
+				fmt.Sprintf("SELECT ?s, ?t FROM ?g1, ?gn WHERE { %s } HAVING ?t < 2016-01-01T00:00:00Z;", o),
+				fmt.Sprintf("SELECT ?s, ?t FROM ?g1, ?gn WHERE { %s } ORDER BY ?t, ?s;", o),
+				fmt.Sprintf("CONSTRUCT { ?s \"c1\"@[?t] ?o } INTO ?g2 FROM ?g1, ?gn WHERE { %s };", o),
+			)
+		}
+	}
+	return res
+}
